@@ -21,6 +21,8 @@ KINDS = {
     14: dict(rd=["a"], wr=[], ld=[], st=[], memorder=False, special=False, jk="cond", len=4),
     15: dict(rd=[], wr=["b"], ld=["n"], st=[], memorder=False, special=False, jk="none", len=4),
     16: dict(rd=["c"], wr=[], ld=[], st=["n"], memorder=False, special=False, jk="none", len=2),
+    17: dict(rd=["b"], wr=[], ld=[], st=["m"], memorder=False, special=False, jk="none", len=4, addrreg="b"),
+    18: dict(rd=["b"], wr=["a"], ld=["m"], st=[], memorder=False, special=False, jk="none", len=4, addrreg="b"),
 }
 BASES = [[0, 16, 0, 0, 0, 0, 0, 0], [0, 0, 0, 0, 1, 0, 0, 0], [0, 240, 255, 255, 255, 255, 255, 127], [0, 0, 0, 0, 0, 0, 0, 240]]
 
@@ -44,6 +46,7 @@ def block_ins(kinds, start=0, target=0):
     for k in kinds:
         d = dict(KINDS[k])
         ln = d.pop("len")
+        d.setdefault("addrreg", "")
         ins.append(dict(d, addr=a, len=ln, t=[target] if d["jk"] in ("cond", "const") else [], text="k%d" % k))
         a += ln
     return ins, a
@@ -85,7 +88,7 @@ class DepsCheck(Check):
         return g
 
 
-ALLK = list(range(1, 17))
+ALLK = list(range(1, 19))
 
 
 class C06(DepsCheck):
